@@ -23,7 +23,7 @@ Linear(r) ==
   /\ r.travel <= 2 * r.len + 64
   /\ r.peeks <= 2 * r.len + 64
   /\ r.peek_bytes <= 33 * r.len + 64
-  /\ r.us <= 2 * r.len + 20000      \* time: 2 microseconds per byte + 20 ms (about 1000x the normal cost)
+  /\ 2 * r.us <= r.len + 20000      \* time: 0.5 microseconds per byte + 10 ms (25x the slowest legitimate case measured)
 TInit == l = 1
 TWork == l <= Len(Rec) /\ Rec[l].ev = "work" /\ Linear(Rec[l]) /\ l' = l + 1
 TSpec == TInit /\ [][TWork]_l
